@@ -481,10 +481,11 @@ impl Quantity {
             return QuantityOrdering::IncompatibleUnits;
         };
 
-        let cmp = self
-            .value
-            .partial_cmp(&other_converted.value)
-            .expect("unexpectedly got a None partial_cmp from non-NaN arguments");
+        // The conversion itself can produce NaN (inf / inf when the conversion factor between
+        // two extreme units overflows), even if neither operand was NaN.
+        let Some(cmp) = self.value.partial_cmp(&other_converted.value) else {
+            return QuantityOrdering::NanOperand;
+        };
 
         QuantityOrdering::Ok(cmp)
     }
